@@ -15,7 +15,8 @@ Theorem C12_no_error_iff : forall adv enf, enf_sane enf ->
 Proof. exact no_error_iff. Qed.
 Print Assumptions C12_no_error_iff.
 
-(** The same for a connection built from a user Config, the right-hand side spelled out as
+(** The same for a connection that enforces from a user Config alone (the plain client; the
+    spec-driven client before its repair), the right-hand side spelled out as
     inequalities between the spec's values and Config fields / constants of the code. *)
 Theorem C12_no_error_iff_config : forall (kv : list (Z * Z)) (raw : config), raw_sane raw ->
   let a := advertised kv in
@@ -25,7 +26,7 @@ Theorem C12_no_error_iff_config : forall (kv : list (Z * Z)) (raw : config), raw
   l_sd_bl a <= c_isw c /\ l_sd_br a <= c_isw c /\ l_sd_uni a <= c_isw c /\
   l_s_bidi a <= c_mis c /\ l_s_uni a <= c_mius c /\
   l_cid a <= protoMaxActiveConnectionIDs /\
-  Z.min (l_dgram a) (l_udp a - minPacketOverhead) <= (if c_dg c then wireMaxDatagramSize else 0) /\
+  Z.min (l_dgram a) (Z.min (l_udp a) protoMaxPacketBufferSize - minPacketOverhead) <= (if c_dg c then wireMaxDatagramSize else 0) /\
   (0 < l_idle a /\ l_idle a <= c_idle c).
 Proof.
   exact (fun kv raw H =>
@@ -49,77 +50,87 @@ Theorem C12_plain_client_ok : forall c : config, nsPerMs <= c_idle c ->
 Proof. exact (fun c H => conj (plain_covers c H) (covers_safe _ _ (plain_covers c H))). Qed.
 Print Assumptions C12_plain_client_ok.
 
-(** Built-in parrots under the default Config: one conformant history per uncovered limit kind
-    (connection window, the three stream windows, uni stream count / connection ID limit,
-    DATAGRAM), and the exact list of covered components
-    [max_data; sd_bidi_local; sd_bidi_remote; sd_uni; streams_bidi; streams_uni; cid; datagram; idle]. *)
-Theorem C12_Chrome_115_IPv4_default_config_refuted : chrome_default_refuted advenf_spec_Chrome_115_IPv4.
+(** The spec-driven client (repaired newUClientConnection: the Config is raised to the spec's
+    values before preSetup, the connection ID manager honours the advertised limit): for every
+    parameter list that advertises an idle timeout and stream counts within the protocol maximum,
+    and EVERY Config, enforced >= advertised, hence no locally generated error against a
+    conformant peer. *)
+Theorem C12_spec_client_ok : forall (kv : list (Z * Z)) (c : config), spec_valid (advertised kv) ->
+  covers (advertised kv) (enforced_spec (advertised kv) c) /\
+  forall h code, play (advertised kv) (enforced_spec (advertised kv) c) h <> Err code.
+Proof. exact (fun kv c V => conj (spec_covers _ c V) (spec_client_ok _ c V)). Qed.
+Print Assumptions C12_spec_client_ok.
+
+(** Every built-in parrot (tables generated from QUICID2Spec), every Config the user may pass. *)
+Theorem C12_Chrome_115_IPv4_default_config_ok : parrot_ok advenf_spec_Chrome_115_IPv4.
+Proof. exact Chrome_115_IPv4_ok. Qed.
+Print Assumptions C12_Chrome_115_IPv4_default_config_ok.
+Theorem C12_Chrome_115_IPv6_default_config_ok : parrot_ok advenf_spec_Chrome_115_IPv6.
+Proof. exact Chrome_115_IPv6_ok. Qed.
+Print Assumptions C12_Chrome_115_IPv6_default_config_ok.
+Theorem C12_Chrome_146_IPv4_default_config_ok : parrot_ok advenf_spec_Chrome_146_IPv4.
+Proof. exact Chrome_146_IPv4_ok. Qed.
+Print Assumptions C12_Chrome_146_IPv4_default_config_ok.
+Theorem C12_Chrome_146_IPv6_default_config_ok : parrot_ok advenf_spec_Chrome_146_IPv6.
+Proof. exact Chrome_146_IPv6_ok. Qed.
+Print Assumptions C12_Chrome_146_IPv6_default_config_ok.
+Theorem C12_Firefox_116A_default_config_ok : parrot_ok advenf_spec_Firefox_116A.
+Proof. exact Firefox_116A_ok. Qed.
+Print Assumptions C12_Firefox_116A_default_config_ok.
+Theorem C12_Firefox_116B_default_config_ok : parrot_ok advenf_spec_Firefox_116B.
+Proof. exact Firefox_116B_ok. Qed.
+Print Assumptions C12_Firefox_116B_default_config_ok.
+Theorem C12_Firefox_116C_default_config_ok : parrot_ok advenf_spec_Firefox_116C.
+Proof. exact Firefox_116C_ok. Qed.
+Print Assumptions C12_Firefox_116C_default_config_ok.
+
+Theorem C12_every_parrot_valid : Forall (fun kv => spec_valid (advertised kv)) advenf_all_specs.
+Proof. exact all_parrots_valid. Qed.
+Print Assumptions C12_every_parrot_valid.
+
+(** Regression (the shape of the code before the repair: enforcement from the Config and the
+    constant alone, [enforced]): the same parrots were refuted under the default Config, one
+    conformant history per uncovered limit kind; the connection ID limit for every Config; the
+    idle timeout for a Config below the advertised 30 s. *)
+Example C12_old_shape_chrome_refuted : chrome_default_refuted advenf_spec_Chrome_115_IPv4.
 Proof. exact Chrome_115_IPv4_default. Qed.
-Print Assumptions C12_Chrome_115_IPv4_default_config_refuted.
-Theorem C12_Chrome_115_IPv6_default_config_refuted : chrome_default_refuted advenf_spec_Chrome_115_IPv6.
-Proof. exact Chrome_115_IPv6_default. Qed.
-Print Assumptions C12_Chrome_115_IPv6_default_config_refuted.
-Theorem C12_Chrome_146_IPv4_default_config_refuted : chrome_default_refuted advenf_spec_Chrome_146_IPv4.
-Proof. exact Chrome_146_IPv4_default. Qed.
-Print Assumptions C12_Chrome_146_IPv4_default_config_refuted.
-Theorem C12_Chrome_146_IPv6_default_config_refuted : chrome_default_refuted advenf_spec_Chrome_146_IPv6.
-Proof. exact Chrome_146_IPv6_default. Qed.
-Print Assumptions C12_Chrome_146_IPv6_default_config_refuted.
-Theorem C12_Firefox_116A_default_config_refuted : firefox_default_refuted advenf_spec_Firefox_116A.
+Print Assumptions C12_old_shape_chrome_refuted.
+Example C12_old_shape_firefox_refuted : firefox_default_refuted advenf_spec_Firefox_116A.
 Proof. exact Firefox_116A_default. Qed.
-Print Assumptions C12_Firefox_116A_default_config_refuted.
-Theorem C12_Firefox_116B_default_config_refuted : firefox_default_refuted advenf_spec_Firefox_116B.
-Proof. exact Firefox_116B_default. Qed.
-Print Assumptions C12_Firefox_116B_default_config_refuted.
-Theorem C12_Firefox_116C_default_config_refuted : firefox_default_refuted advenf_spec_Firefox_116C.
-Proof. exact Firefox_116C_default. Qed.
-Print Assumptions C12_Firefox_116C_default_config_refuted.
-
-Theorem C12_every_parrot_default_config_uncovered :
-  Forall (fun kv => ~ covers (advertised kv) (enforced default_config)) advenf_all_specs.
-Proof. exact all_parrots_default_uncovered. Qed.
-Print Assumptions C12_every_parrot_default_config_uncovered.
-
-(** The connection ID limit is enforced as a constant: whatever the Config, a parrot that
-    advertises more than MaxActiveConnectionIDs gets CONNECTION_ID_LIMIT_ERROR from a peer
-    that issues limit-1 connection IDs. The Firefox parrots do. *)
-Theorem C12_cid_limit_refuted_any_config : forall kv (c : config), advertises_cid_above kv ->
+Print Assumptions C12_old_shape_firefox_refuted.
+Example C12_old_shape_cid_refuted_any_config : forall kv (c : config), advertises_cid_above kv ->
   play (advertised kv) (enforced c) (w_cid (advertised kv)) = Err ConnectionIDLimitError /\
   ~ covers (advertised kv) (enforced c).
 Proof. exact cid_any_config. Qed.
-Print Assumptions C12_cid_limit_refuted_any_config.
+Print Assumptions C12_old_shape_cid_refuted_any_config.
+Example C12_old_shape_idle_refuted :
+  Forall (fun kv => play (advertised kv) (enforced cfg_idle10s) (w_idle (enforced cfg_idle10s)) = Err IdleTimeout) advenf_all_specs.
+Proof. exact idle10s_refuted. Qed.
+Print Assumptions C12_old_shape_idle_refuted.
 
-Theorem C12_firefox_advertises_cid_above :
-  advertises_cid_above advenf_spec_Firefox_116A /\ advertises_cid_above advenf_spec_Firefox_116B /\
-  advertises_cid_above advenf_spec_Firefox_116C.
-Proof. exact firefox_cid_above. Qed.
-Print Assumptions C12_firefox_advertises_cid_above.
+(** ... and every one of those witness histories is now played to the end (default Config,
+    MaxIdleTimeout 10 s, MaxIncomingStreams 50). *)
+Theorem C12_old_witnesses_now_fine :
+  Forall (fun kv =>
+    let a := advertised kv in
+    Forall (fun h => play a (enforced_spec a default_config) h = Fine) (old_witnesses a) /\
+    play a (enforced_spec a cfg_idle10s) (w_idle (enforced cfg_idle10s)) = Fine /\
+    play a (enforced_spec a cfg_streams50) (w_s_bidi a) = Fine) advenf_all_specs.
+Proof. exact old_witnesses_now_fine. Qed.
+Print Assumptions C12_old_witnesses_now_fine.
 
-(** Idle timeout: covered by the default Config (30 s = 30 s), refuted for every parrot as soon
-    as Config.MaxIdleTimeout is smaller (here 10 s): the client gives up while its peer, relying
-    on the advertised 30 s, still considers the connection alive. *)
-Theorem C12_idle_timeout_config_refuted :
-  Forall (fun kv => play (advertised kv) (enforced cfg_idle10s) (w_idle (enforced cfg_idle10s)) = Err IdleTimeout) advenf_all_specs /\
-  Forall (fun kv => 0 < l_idle (advertised kv) /\ l_idle (advertised kv) <= l_idle (enforced default_config)) advenf_all_specs.
-Proof. exact (conj idle10s_refuted idle_default_covered). Qed.
-Print Assumptions C12_idle_timeout_config_refuted.
-
-Theorem C12_chrome_streams_bidi_config_refuted :
-  play (advertised advenf_spec_Chrome_115_IPv4) (enforced cfg_streams50) (w_s_bidi (advertised advenf_spec_Chrome_115_IPv4)) = Err StreamLimitError.
-Proof. exact chrome_streams50_refuted. Qed.
-Print Assumptions C12_chrome_streams_bidi_config_refuted.
-
-(** A Config raised to the advertised values repairs the Chrome parrots completely. *)
-Theorem C12_chrome_roomy_config_ok : forall h c,
-  play (advertised advenf_spec_Chrome_146_IPv4) (enforced cfg_roomy) h <> Err c.
-Proof. exact chrome_roomy_ok. Qed.
-Print Assumptions C12_chrome_roomy_config_ok.
+(** Still refuted (open finding, only reachable with a hand-made spec): a parameter list without
+    max_idle_timeout tells the peer "no idle timeout", the client gives up after Config.MaxIdleTimeout. *)
+Theorem C12_idle_not_advertised_refuted : forall a (c : config), l_idle a <= 0 -> 0 < c_idle c ->
+  play a (enforced_spec a c) [EvSilence (l_idle (enforced_spec a c)) 0 0] = Err IdleTimeout.
+Proof. exact idle_not_advertised_refuted. Qed.
+Print Assumptions C12_idle_not_advertised_refuted.
 
 (** Non-vacuity: conformant histories exist and are played through (13 events, all kinds). *)
 Example C12_conformant_history_exists :
   let a := advertised advenf_spec_Chrome_146_IPv4 in
   play a (enforced cfg_roomy)
-    [EvData 2 6291456; EvData 1 6291456; EvData 0 3145728; EvOpen 2 102; EvOpen 1 99; EvCID 1; EvDgram 1454;
+    [EvData 2 6291456; EvData 1 6291456; EvData 0 3145728; EvOpen 2 102; EvOpen 1 99; EvCID 1; EvDgram 1434;
      EvSilence 29999999999 0 0; EvGrant KConn 20000000; EvGrant KSD0 9000000; EvData 0 4271272; EvRetireCID; EvCID 1] = Fine.
 Proof. exact chrome_roomy_example. Qed.
 Print Assumptions C12_conformant_history_exists.
@@ -130,26 +141,24 @@ Theorem C12_tparams_roundtrip : forall ps, Forall wf_param ps -> parse (marshal 
 Proof. exact parse_marshal. Qed.
 Print Assumptions C12_tparams_roundtrip.
 
-(** ClientOverride (the record) and the ClientHello extension (the wire) are two marshalings
-    of the same list; utls re-draws the GREASE version of version_information at each, so the
-    byte strings can differ there (refuted as an equality of bytes) ... *)
-Theorem C12_record_equals_wire_refuted :
-  exists o1 o2 ps, Forall wf_param ps /\ override_bytes o1 ps <> wire_bytes o2 ps.
-Proof. exact record_wire_bytes_can_differ. Qed.
-Print Assumptions C12_record_equals_wire_refuted.
+(** The record: ClientOverride is taken from the extension's own cached encoding, the byte string
+    uTLS writes into the ClientHello. Equal byte for byte; a peer parsing it reads the recorded
+    and advertised limits of the list. *)
+Theorem C12_record_equals_wire : forall o ps, override_bytes o ps = wire_bytes o ps.
+Proof. exact record_equals_wire. Qed.
+Print Assumptions C12_record_equals_wire.
 
-(** ... but they parse to lists that agree on every limit, the recorded fields are the wire's
-    values, and without a version_information parameter the bytes are equal. *)
-Theorem C12_record_equals_wire_partial : forall o1 o2 ps,
-  (forall id b, vwf (zlen (o1 id b))) -> (forall id b, vwf (zlen (o2 id b))) -> Forall wf_param ps ->
-  exists lo lw,
-    parse (override_bytes o1 ps) = Some lo /\ parse (wire_bytes o2 ps) = Some lw /\
-    advertised (kv_of lo) = advertised (kv_of lw) /\ recorded (kv_of lo) = recorded (kv_of ps) /\
-    advertised (kv_of lw) = advertised (kv_of ps).
+Theorem C12_record_equals_wire_limits : forall o ps,
+  (forall id b, vwf (zlen (o id b))) -> Forall wf_param ps ->
+  exists l,
+    parse (override_bytes o ps) = Some l /\ parse (wire_bytes o ps) = Some l /\
+    recorded (kv_of l) = recorded (kv_of ps) /\ advertised (kv_of l) = advertised (kv_of ps).
 Proof. exact record_equals_wire_limits. Qed.
-Print Assumptions C12_record_equals_wire_partial.
+Print Assumptions C12_record_equals_wire_limits.
 
-Theorem C12_record_equals_wire_without_version_information : forall o1 o2 ps,
-  forallb (fun p => negb (is_vi (fst p))) ps = true -> override_bytes o1 ps = wire_bytes o2 ps.
-Proof. exact record_equals_wire_without_vi. Qed.
-Print Assumptions C12_record_equals_wire_without_version_information.
+(** Regression (old shape: the record was a second marshaling; utls re-draws the GREASE version
+    of version_information at each): the byte strings could differ. *)
+Example C12_old_shape_record_differs_from_wire :
+  exists o1 o2 ps, Forall wf_param ps /\ override_bytes_old o1 ps <> wire_bytes o2 ps.
+Proof. exact old_record_wire_bytes_can_differ. Qed.
+Print Assumptions C12_old_shape_record_differs_from_wire.
